@@ -271,3 +271,18 @@ def ar_sum_axis(a2):
     s[0] = 1
     return s
 CASES['ar_sum_axis'] = [('A2',)]
+
+
+def ar_aug_subscript_rows(a2):
+    rows = [r for r in a2]
+    rows[0] += 1
+CASES['ar_aug_subscript_rows'] = [('A2',)]
+REGRESSION.append('ar_aug_subscript_rows')
+
+
+def ar_aug_numeric_local(a):
+    d = np.zeros(4)
+    for i in range(4):
+        d[i] += a[i]
+    return d
+CASES['ar_aug_numeric_local'] = [('A',)]
